@@ -224,4 +224,29 @@ theorem persistImages_all (B : Nat) : ∀ (recs : List Bytes) (s : WState), s.bu
       · simpa [writeEntries, List.append_assoc] using h1
       · simpa [writeEntries, List.append_assoc] using h2
 
+theorem streamWrites_stream (B : Nat) : ∀ (chunks : List Bytes) (s : WState),
+    (streamWrites B s chunks).stream = s.stream ++ chunks.flatten := by
+  intro chunks
+  induction chunks with
+  | nil => intro s; simp [streamWrites]
+  | cons c t ih =>
+    intro s
+    have := ih (bwrite B s c)
+    unfold streamWrites at this ⊢
+    rw [List.foldl_cons, this]
+    unfold bwrite
+    rw [bwriteT_stream]
+    simp [List.append_assoc]
+
+theorem streamWrites_bound (B : Nat) : ∀ (chunks : List Bytes) (s : WState), s.buf.length ≤ B →
+    (streamWrites B s chunks).buf.length ≤ B := by
+  intro chunks
+  induction chunks with
+  | nil => intro s h; simpa [streamWrites] using h
+  | cons c t ih =>
+    intro s h
+    have := ih (bwrite B s c) (bwriteT_bound B s c h)
+    unfold streamWrites at this ⊢
+    rw [List.foldl_cons]; exact this
+
 end LinVerif.Kv.BW
